@@ -60,31 +60,31 @@ Theorem C12_wait_ge_backoff : forall src fs j b,
 Proof. exact wait_ge_backoff. Qed.
 Print Assumptions C12_wait_ge_backoff.
 
-(* ... and exactly the configured backoff unless the fault is a 429 *)
+(* ... exactly the configured backoff when the answer carries no Retry-After ... *)
 Theorem C12_wait_exact_backoff : forall enforce src fs j b,
   (j < length (waits_of (Retry.request enforce src O fs)))%nat -> src j = Some b ->
-  is_429 (nthf j fs) = false ->
+  requested (nthf j fs) = None ->
   nth j (waits_of (Retry.request enforce src O fs)) 0 = b.
 Proof. exact wait_exact_backoff. Qed.
 Print Assumptions C12_wait_exact_backoff.
 
-(* "never waiting less than a server-requested Retry-After": false of the faithful model for 5xx
-   answers that carry one (known finding F1201) ... *)
-Theorem C12_retry_after_refuted :
-  exists enforce l fs j r,
-    (j < length (waits_of (Retry.request enforce (src_list l) O fs)))%nat /\
-    requested (nthf j fs) = Some r /\
-    nth j (waits_of (Retry.request enforce (src_list l) O fs)) 0 < r.
-Proof. exact wait_ge_retry_after_refuted. Qed.
-Print Assumptions C12_retry_after_refuted.
+(* ... and with a Retry-After r: max(backoff, r), or r under enforce_retry_after *)
+Theorem C12_wait_with_retry_after : forall enforce src fs j b r,
+  (j < length (waits_of (Retry.request enforce src O fs)))%nat -> src j = Some b ->
+  requested (nthf j fs) = Some r ->
+  nth j (waits_of (Retry.request enforce src O fs)) 0 = if enforce then r else Z.max b r.
+Proof. exact wait_with_retry_after. Qed.
+Print Assumptions C12_wait_with_retry_after.
 
-(* ... true for 429, with and without enforce, for every backoff source *)
-Theorem C12_retry_after_partial : forall enforce src fs j r,
+(* "never waiting less than a server-requested Retry-After": FULL statement — every retried status
+   (429, 403, 5xx), header or details style, every backoff source, enforce on or off.
+   (Was refuted for 5xx before kopf commit 69e02a7: finding F1201, now fixed.) *)
+Theorem C12_retry_after : forall enforce src fs j r,
   (j < length (waits_of (Retry.request enforce src O fs)))%nat ->
-  is_429 (nthf j fs) = true -> requested (nthf j fs) = Some r ->
+  requested (nthf j fs) = Some r ->
   r <= nth j (waits_of (Retry.request enforce src O fs)) 0.
-Proof. exact wait_ge_retry_after_429. Qed.
-Print Assumptions C12_retry_after_partial.
+Proof. exact wait_ge_retry_after. Qed.
+Print Assumptions C12_retry_after.
 
 (* other 4xx escalate at once: no wait, no retry; 401 leaves the loop at once for re-authentication *)
 Theorem C12_plain_4xx_at_once : forall enforce src i c h d fs,
@@ -249,6 +249,11 @@ Print Assumptions C12_recovers.
 (* ============================ non-vacuity ============================ *)
 Example C12_nonvacuous_retry : Forall retryable [FStatus 500 None None; FConn; FTimeout; FStatus 429 (Some 7) (Some 3)].
 Proof. exact retry_example_hyp. Qed.
+
+(* regression of F1201: 503 + Retry-After 7 against backoffs (1,2,3): the second attempt comes at t = 7 *)
+Example C12_retry_after_503_regression :
+  request_obs false (src_list [1; 2; 3]) [FStatus 503 (Some 7) None] = ([0; 7], ODone).
+Proof. exact retry_after_503. Qed.
 
 Example C12_nonvacuous_throttle : TInv [2; 4; 6] t0 O.
 Proof. exact (TInv_t0 [2; 4; 6]). Qed.
